@@ -233,19 +233,6 @@ mod proofs {
         assert!(CAN.as_bytes() == [0x18u8] && SUB.as_bytes() == [0x1au8]);
     }
 
-    /// the designator table: B/0/U/V -> LAT1/VT100/IBMPC/VAX42 and nothing else (lazy_static HashMap; bounded by its 4 entries)
-    #[kani::proof]
-    #[kani::unwind(6)]
-    fn maps_table() {
-        use memterm::charset::*;
-        assert!(MAPS.len() == 4);
-        assert!(MAPS.get("B").map(|t| t[0x41] as u32) == Some(0x41));
-        assert!(MAPS.get("0").map(|t| t[0x71] as u32) == Some(0x2500));
-        assert!(MAPS.get("U").map(|t| t[0x80] as u32) == Some(0x00c7));
-        assert!(MAPS.get("V").is_some());
-        assert!(MAPS.get("A").is_none());
-    }
-
     #[kani::proof]
     fn mode_constants() {
         assert!(memterm::modes::LNM == 20);
